@@ -97,8 +97,9 @@ def run(ctx):
         for o in (outc, outp):
             if "error" in o:
                 raise RuntimeError("driver error %s on %s" % (o["error"], case))
-        py = impl.py_distance(case, "numpy", fast=False)
-        cy = impl.py_distance(case, "numpy" if (i % 2 or case.get("ndim", 1) > 1) else "array", fast=True)
+        pcase = dict(case, psi_np=True) if i % 4 == 0 else case       # psi as a NumPy integer: both engines
+        py = impl.py_distance(pcase, "numpy", fast=False)
+        cy = impl.py_distance(pcase, "numpy" if (i % 2 or case.get("ndim", 1) > 1) else "array", fast=True)
         cd = c_direct(lib, case)
         res.evaluations += 1
         tags = c01.nontrivial(case) + (["maxdist"] if case.get("max_dist_I") else []) + \
